@@ -310,7 +310,7 @@ class Peg:
                         raise Fail('list-item')
                     self.emitted += 1
                     lo_b = self.toks[prev_delim]['start'][0] if prev_delim is not None else (self.toks[D[0]]['start'][0] if D else 0)
-                    hi_b = self.toks[delim]['end'][0] if delim is not None else (self.toks[-1]['end'][0] if self.toks else 0)
+                    hi_b = self.toks[delim]['end'][0] if delim is not None else None      # None: the end of the text
                     bounds.append((lo_b, hi_b))
                     if delim is None and not self.complete_tail_ok():
                         pass
@@ -399,4 +399,5 @@ def reference(text, le, tab, scanner, flt, g, sink=False, runs=1, sub_skip=True)
         out.append(('ok', v, p.rest(s1), s1.flt is not None, p.emitted))
         s = s1
     reference.known = p.known
+    reference.list_bounds = getattr(p, 'list_bounds', [])
     return out
